@@ -692,28 +692,32 @@ func (dm *DagModifier) Seek(offset int64, whence int) (int64, error) {
 		return 0, err
 	}
 
-	var newoffset uint64
+	var newoffset int64
 	switch whence {
 	case io.SeekCurrent:
-		newoffset = dm.curWrOff + uint64(offset)
+		newoffset = int64(dm.curWrOff) + offset
 	case io.SeekStart:
-		newoffset = uint64(offset)
+		newoffset = offset
 	case io.SeekEnd:
-		newoffset = uint64(fisize) - uint64(offset)
+		newoffset = fisize + offset
 	default:
 		return 0, ErrUnrecognizedWhence
 	}
+	if newoffset < 0 {
+		// io.Seeker: seeking to an offset before the start of the file is an error
+		return 0, ErrSeekFail
+	}
 
-	if int64(newoffset) > fisize {
-		if err := dm.expandSparse(int64(newoffset) - fisize); err != nil {
+	if newoffset > fisize {
+		if err := dm.expandSparse(newoffset - fisize); err != nil {
 			return 0, err
 		}
 	}
-	dm.curWrOff = newoffset
-	dm.writeStart = newoffset
+	dm.curWrOff = uint64(newoffset)
+	dm.writeStart = uint64(newoffset)
 
 	if dm.read != nil {
-		_, err = dm.read.Seek(offset, whence)
+		_, err = dm.read.Seek(newoffset, io.SeekStart)
 		if err != nil {
 			return 0, err
 		}
